@@ -332,7 +332,7 @@ func (db *Database) SearchUniversal(query string, options SearchOptions) []Searc
 func (db *Database) calculateInitialScores(terms []string, pq *nlp.ProcessedQuery, options SearchOptions) map[int]float64 {
 	idx := db.uIndex
 	scores := make(map[int]float64, len(db.Commands)/4)
-	currentPlatform := getCurrentPlatform()
+	platforms := platformsInForce(options)
 
 	// Prepare per-term boosts (context + NLP action/target emphasis)
 	termBoost := make(map[string]float64)
@@ -366,7 +366,7 @@ func (db *Database) calculateInitialScores(terms []string, pq *nlp.ProcessedQuer
 		if b, ok := termBoost[term]; ok && b > 0 {
 			boost = b
 		}
-		db.processPostingsForTerm(postings, idx, idf, boost, scores, currentPlatform, options)
+		db.processPostingsForTerm(postings, idx, idf, boost, scores, platforms, options)
 	}
 	return scores
 }
@@ -376,21 +376,14 @@ func (db *Database) processPostingsForTerm(
 	idx *universalIndex,
 	idf, boost float64,
 	scores map[int]float64,
-	currentPlatform string,
+	platforms []string,
 	options SearchOptions,
 ) {
 	for _, p := range postings {
 		doc := &db.Commands[p.docID]
 
-		// Platform filtering (skip if AllPlatforms is enabled)
-		if !options.AllPlatforms && len(doc.Platform) > 0 {
-			if !isPlatformCompatible(doc.Platform, currentPlatform) && !isCrossPlatformTool(doc.Command) {
-				continue
-			}
-		}
-
-		// Pipeline filtering
-		if options.PipelineOnly && !isPipelineCommand(doc) {
+		// Platform filtering (skip if AllPlatforms is enabled) and pipeline filtering
+		if !isCommandEligible(doc, platforms, options) {
 			continue
 		}
 
@@ -572,6 +565,61 @@ func (idx *universalIndex) fieldBM25(tf, dl, avgdl, w, b float64) float64 {
 func bm25IDF(n, df int) float64 {
 	// Okapi BM25 idf with 0.5 adjustments
 	return math.Log((float64(n)-float64(df)+0.5)/(float64(df)+0.5) + 1)
+}
+
+// platformsInForce returns the platforms a search filters by: the ones the
+// caller asked for (--platform), otherwise the host platform.
+func platformsInForce(options SearchOptions) []string {
+	if len(options.Platforms) == 0 {
+		return []string{getCurrentPlatform()}
+	}
+	out := make([]string, 0, len(options.Platforms))
+	for _, p := range options.Platforms {
+		p = strings.ToLower(strings.TrimSpace(p))
+		if p == "darwin" {
+			p = constants.PlatformMacOS
+		}
+		out = append(out, p)
+	}
+	return out
+}
+
+// isCommandEligible is the platform / pipeline gate every search path applies.
+// A command that declares platforms passes when one of them is a platform in
+// force; failing that it passes as a cross-platform entry or tool, unless
+// cross-platform entries are excluded (--no-cross-platform).
+func isCommandEligible(doc *Command, platforms []string, options SearchOptions) bool {
+	if options.PipelineOnly && !isPipelineCommand(doc) {
+		return false
+	}
+	if options.AllPlatforms || len(doc.Platform) == 0 {
+		return true
+	}
+	for _, current := range platforms {
+		if matchesPlatform(doc.Platform, current) {
+			return true
+		}
+	}
+	if options.NoCrossPlatform {
+		return false
+	}
+	for _, p := range doc.Platform {
+		if strings.EqualFold(p, "cross-platform") {
+			return true
+		}
+	}
+	return isCrossPlatformTool(doc.Command)
+}
+
+// matchesPlatform reports whether one of the declared platforms is current
+// (or a known variant of it); the cross-platform tag is not a match here.
+func matchesPlatform(platforms []string, current string) bool {
+	for _, p := range platforms {
+		if strings.EqualFold(p, current) || checkPlatformVariant(p, current) {
+			return true
+		}
+	}
+	return false
 }
 
 func isPlatformCompatible(platforms []string, current string) bool {
